@@ -18,6 +18,7 @@ struct SolReadConfig {
   int nvars = 0, ncons = 0, nlcons = 0;     // what the handler's Header() declares
   std::vector<ConsumerStep> script;         // step i applies to the i-th offered vector; beyond the list: "all"
   int options_rv = 0;                       // return value of OnAMPLOptions
+  bool c_party = false;                     // the handler is a C callback table behind the library's NLW2_SOLHandler_C_Impl wrapper
 };
 
 struct VecRec {
